@@ -150,11 +150,13 @@ var _ *pb.SharedGroupProposal
 //@ set saved = ite(isnil($ret0), 1, 0)
 //@ end
 //@ at call RaftGroup).isLeader
+//@ scope rd
+//@ requires [C05 C03 leader-test-sees-this-readys-soft-state: a node may send before persisting only if it is leader AS OF this Ready (raft/doc.go); a node that this very Ready deposes must persist first] leaderTests == 0 ==> rd.SoftState == nil || this.raftLeaderId == rd.SoftState.Lead
 //@ set leaderTests = leaderTests + 1
 //@ set leaderTop = ite(leaderTests == 0, ite($ret0, 1, 0), leaderTop)
 //@ end
 //@ at call RaftTransport).Send
-//@ requires [C05 send-after-save] saved == 1 || (leaderTop == 1 && leaderTests == 1)
+//@ requires [C05 C03 send-after-save] saved == 1 || (leaderTop == 1 && leaderTests == 1)
 //@ set sent = sent + 1
 //@ end
 //@ at call field:storage/raft.RaftGroup.processFn
